@@ -1,6 +1,6 @@
 //! vreplay12 <C12|C18>: bounded stand-in / witness search for the Value conversions (C12) and Value / ValueTuple equality and
 //! hashing (C18) on the REAL crate built with hashable-value and every optional value type.  Prints `WITNESS {json}` lines.
-use sea_query::{Nullable, Value, ValueTuple, ValueType, IntoValueTuple};
+use sea_query::{FromValueTuple, Nullable, Value, ValueTuple, ValueType, IntoValueTuple};
 use std::collections::hash_map::DefaultHasher;
 use std::hash::{Hash, Hasher};
 
@@ -70,6 +70,26 @@ fn c12() -> usize {
     let tup = (1i32, "b".to_string(), 3.5f64).into_value_tuple();
     let back: Vec<Value> = tup.clone().into_iter().collect();
     if back != vec![Value::from(1i32), Value::from("b"), Value::from(3.5f64)] { witness("C12", "(1, \"b\", 3.5).into_value_tuple()".into(), format!("{tup:?} / {back:?}"), "three values in order"); }
+    // extracting as a tuple of ANOTHER arity fails (panics) instead of truncating / padding: sources one longer and one shorter than the target
+    std::panic::set_hook(Box::new(|_| {}));
+    macro_rules! arity { ($nn:expr, $($t:ty),+) => {
+        for len in [$nn + 1, $nn - 1, $nn + 3] {
+            n += 1;
+            let src = ValueTuple::Many(vec![Value::from(7i32); len]);
+            let r = std::panic::catch_unwind(|| { let t: ($($t),+) = FromValueTuple::from_value_tuple(src.clone()); format!("{t:?}") });
+            if let Ok(t) = r { witness("C12", format!("a value tuple of {len} values extracted as a {}-tuple", $nn), format!("returned {t}"), "fails: value tuples keep their arity"); }
+        }
+    } }
+    arity!(4usize, i32, i32, i32, i32); arity!(5usize, i32, i32, i32, i32, i32); arity!(6usize, i32, i32, i32, i32, i32, i32); arity!(7usize, i32, i32, i32, i32, i32, i32, i32);
+    arity!(8usize, i32, i32, i32, i32, i32, i32, i32, i32); arity!(9usize, i32, i32, i32, i32, i32, i32, i32, i32, i32); arity!(10usize, i32, i32, i32, i32, i32, i32, i32, i32, i32, i32);
+    arity!(11usize, i32, i32, i32, i32, i32, i32, i32, i32, i32, i32, i32); arity!(12usize, i32, i32, i32, i32, i32, i32, i32, i32, i32, i32, i32, i32);
+    // arities 1..3 have their own variants: a Many / a longer variant must not be accepted either
+    for src in [ValueTuple::Two(Value::from(1i32), Value::from(2i32)), ValueTuple::Many(vec![Value::from(1i32)]), ValueTuple::Many(vec![Value::from(1i32), Value::from(2i32)])] {
+        n += 1;
+        let s2 = src.clone();
+        if let Ok(t) = std::panic::catch_unwind(move || { let t: i32 = FromValueTuple::from_value_tuple(s2); t }) { witness("C12", format!("{src:?} extracted as a single i32"), format!("returned {t}"), "fails: value tuples keep their arity"); }
+    }
+    let _ = std::panic::take_hook();
     n
 }
 
